@@ -3,6 +3,7 @@ import Qv.Model.Pcbo
 import Mathlib.Tactic.Ring
 import Mathlib.Tactic.Linarith
 import Mathlib.Algebra.Order.Ring.Rat
+import Qv.Gen.Interp
 /-!
 # GenEq.Bounds — generated `_get_bounds` and the decision structure of `add_constraint_eq_zero` equal
 the model's `getBounds` and the branch structure of `addEqZero` (C02, C03, C06)
@@ -33,18 +34,6 @@ example : get_bounds [([], 2), ([0], -3), ([0, 1], 5)] (some (none, some 4)) = (
 example : getBounds [([], 2), ([0], -3), ([0, 1], 5)] (none, some 4) = (-1, 4) := by decide +kernel
 
 /-! ## decision structure of `add_constraint_eq_zero` -/
-
-/-- the meaning, on the model state, of the statements the translator abstracts into `Eff` constants
-(registry table `EQ_ZERO_EFFECTS`): a warning is recorded; `self += lam * P`, `self -= lam * P`,
-`self += lam * P * P` -/
-def runEff (P : Poly) (lam : Rat) (s : St) : Eff → St
-  | .warn w => { s with warns := s.warns ++ [w] }
-  | .iaddLamP => s.plus (scaleB lam P)
-  | .isubLamP => s.minus (scaleB lam P)
-  | .iaddLamPP => s.plus (mulB (scaleB lam P) P)
-
-/-- the model's branch tags are instrumentation, not state -/
-def untag (s : St) : St := { s with tags := [] }
 
 /-- after the `lam = 0` and special-shape shortcuts, `addEqZero` does exactly what the generated
 if/elif chain of `add_constraint_eq_zero` says, on the bounds `_get_bounds` returns: same branch
